@@ -83,7 +83,9 @@ impl Parser {
                         Spacing::Joint => Ok(Value::Symbol(self.parse_identifier(c.to_string()))),
                         Spacing::Alone => match c {
                             '-' => match self.peek() {
-                                Some(TokenTree::Literal(lit)) => {
+                                // Only a number can be negated; `- "x"` is the
+                                // symbol `-` followed by a string
+                                Some(TokenTree::Literal(lit)) if is_numeric_literal(lit) => {
                                     let lit = lit.clone();
                                     self.eat_token();
                                     Ok(Value::Negated(lit))
@@ -91,7 +93,8 @@ impl Parser {
                                 _ => Ok(Value::Symbol(c.to_string())),
                             },
                             ':' => match self.peek() {
-                                Some(TokenTree::Literal(lit)) => {
+                                // Likewise, `: 42` is the symbol `:` followed by a number
+                                Some(TokenTree::Literal(lit)) if string_literal(lit).is_ok() => {
                                     let name = string_literal(lit)?;
                                     self.eat_token();
                                     Ok(Value::Keyword(name))
@@ -181,6 +184,10 @@ impl Parser {
             },
         }
     }
+}
+
+fn is_numeric_literal(lit: &Literal) -> bool {
+    lit.to_string().starts_with(|c: char| c.is_ascii_digit())
 }
 
 fn string_literal(lit: &Literal) -> Result<String, ParseError> {
